@@ -687,9 +687,38 @@ func c06LoopShape(c *Ctx, r *Report, an *Anchors, p *Prov) {
 	nPaths, nJustified := 0, 0
 	var unjust []string
 	justKinds := map[string]int{}
-	var walk func(b *ssa.BasicBlock, facts []edgeFact, onPath map[*ssa.BasicBlock]bool)
+	var walk func(b, pred *ssa.BasicBlock, facts []edgeFact, onPath map[*ssa.BasicBlock]bool)
 	budget := 20000
-	walk = func(b *ssa.BasicBlock, facts []edgeFact, onPath map[*ssa.BasicBlock]bool) {
+	// truthOnPath: the value of a branch condition that is a phi of the block just entered
+	// (result temporaries of inlined helpers, && / || chains), given the edge taken and the
+	// facts collected so far
+	var truthOnPath func(cond ssa.Value, b, pred *ssa.BasicBlock, facts []edgeFact, depth int) (bool, bool)
+	truthOnPath = func(cond ssa.Value, b, pred *ssa.BasicBlock, facts []edgeFact, depth int) (bool, bool) {
+		if depth > 4 {
+			return false, false
+		}
+		if u, ok := cond.(*ssa.UnOp); ok && u.Op == token.NOT {
+			t, ok := truthOnPath(u.X, b, pred, facts, depth+1)
+			return !t, ok
+		}
+		if cb, isC := constBool(cond); isC {
+			return cb, true
+		}
+		for _, f := range facts {
+			if f.cond == cond {
+				return f.pol, true
+			}
+		}
+		if ph, ok := cond.(*ssa.Phi); ok && ph.Block() == b && pred != nil {
+			for i, pr := range b.Preds {
+				if pr == pred {
+					return truthOnPath(ph.Edges[i], nil, nil, facts, depth+1)
+				}
+			}
+		}
+		return false, false
+	}
+	walk = func(b, pred *ssa.BasicBlock, facts []edgeFact, onPath map[*ssa.BasicBlock]bool) {
 		if budget <= 0 {
 			return
 		}
@@ -739,17 +768,30 @@ func c06LoopShape(c *Ctx, r *Report, an *Anchors, p *Prov) {
 		defer delete(onPath, b)
 		if len(b.Succs) == 2 {
 			if ifi, ok := b.Instrs[len(b.Instrs)-1].(*ssa.If); ok {
-				walk(b.Succs[0], append(append([]edgeFact{}, facts...), edgeFact{ifi.Cond, true}), onPath)
-				walk(b.Succs[1], append(append([]edgeFact{}, facts...), edgeFact{ifi.Cond, false}), onPath)
+				if t, known := truthOnPath(ifi.Cond, b, pred, facts, 0); known {
+					// decided by the way this block was reached: one successor, no new fact
+					if t {
+						walk(b.Succs[0], b, facts, onPath)
+					} else {
+						walk(b.Succs[1], b, facts, onPath)
+					}
+					return
+				}
+				if only, decided := decidedSucc(b, pred); decided {
+					walk(only, b, facts, onPath)
+					return
+				}
+				walk(b.Succs[0], b, append(append([]edgeFact{}, facts...), edgeFact{ifi.Cond, true}), onPath)
+				walk(b.Succs[1], b, append(append([]edgeFact{}, facts...), edgeFact{ifi.Cond, false}), onPath)
 				return
 			}
 		}
 		for _, s := range b.Succs {
-			walk(s, facts, onPath)
+			walk(s, b, facts, onPath)
 		}
 	}
 	for _, e := range entry {
-		walk(e, nil, map[*ssa.BasicBlock]bool{})
+		walk(e, loop.Header, nil, map[*ssa.BasicBlock]bool{})
 	}
 	if budget <= 0 {
 		r.Undecided("C06-R2", sf.Name()+":write-free-paths", hdrPos, "path enumeration budget exhausted")
@@ -885,6 +927,7 @@ func c06Funnel(c *Ctx, r *Report, an *Anchors) {
 				}
 			}
 		}
+		ra = peel(resolveAt(ra, call.Block()))
 		okReader := false
 		switch x := ra.(type) {
 		case *ssa.Parameter:
@@ -1572,6 +1615,11 @@ func gzipReaderRule(c *Ctx, r *Report, sf *ssa.Function, rule string) {
 					case *ssa.MakeInterface, *ssa.ChangeInterface:
 						if depth < 3 {
 							visit(x.(ssa.Value), depth+1)
+						}
+					case *ssa.Phi:
+						// joined with nil on an error path (result temporary of an inlined helper): an alias
+						if depth < 3 {
+							visit(x, depth+1)
 						}
 					case *ssa.BinOp:
 						if _, _, ok := nilCompare(x); !ok {
